@@ -17,7 +17,11 @@ use crate::core::*;
 use crate::execs::*;
 
 /// (text, detached)
-pub const SNIPPETS: [(&str, bool); 31] = [
+pub const SNIPPETS: [(&str, bool); 34] = [
+    // variables the state carrier's own commands could trip over
+    ("IFS=:", false),
+    ("Y='* ? [a] $HOME `x`'", false),
+    ("f(){ echo 1; }; export -f f", false),
     // a function whose body only parses with extglob (enabled on the line before, as it has to be in any bash)
     ("shopt -s extglob\nxg() { case \"$1\" in @(a|b)) echo in;; *) echo out;; esac; }", false),
     ("export X=v1", false),
@@ -52,7 +56,7 @@ pub const SNIPPETS: [(&str, bool); 31] = [
     ("Y=\"${Y:-}+\"; export Y", false),
 ];
 
-pub const PROBE: &str = r#"declare -p X Y Z arr m n 2>/dev/null
+pub const PROBE: &str = r#"declare -p X Y Z arr m n IFS 2>/dev/null
 declare -f f
 declare -f xg
 xg a 2>/dev/null || true
